@@ -105,7 +105,13 @@ impl Scenario for SqlScenario {
         let mut drop_after = Value::Null;
         match self.mode {
             Mode::Drop => drop_after = json!(rng.range(0, 3)),
-            Mode::Fault => match rng.below(10) {
+            Mode::Fault => match rng.below(12) {
+                10 | 11 => {
+                    // function failure: an identity UDF over one column of a table fails at row n
+                    let in_a = rng.chance(1, 2) || !queries::uses_b(&q);
+                    let t = if in_a { &mut a } else { &mut b };
+                    t["udf_fault"] = json!({"col": *rng.pick(&["k", "v"]), "row": rng.below(24)});
+                }
                 x @ 0..=6 => {
                     let in_a = rng.chance(1, 2) || !queries::uses_b(&q);
                     let kind = if x <= 4 { "err" } else { "panic" };
